@@ -759,6 +759,9 @@ func (d *Decoder) decodeFields(mesgDef *proto.MessageDefinition, mesg *proto.Mes
 
 		if baseType != field.BaseType { // Convert value
 			field.Value = convertBytesToValue(field.Value.SliceUint8(), mesgDef.Architecture, field.BaseType)
+			if field.Array { // An array field holds an array, here of the one element converted.
+				field.Value = valueAppend(proto.Value{}, field.Value)
+			}
 		}
 
 		if field.Num == proto.FieldNumTimestamp && field.Value.Type() == proto.TypeUint32 {
